@@ -1,4 +1,5 @@
 import S3db.Props.C03
+import S3db.Model.Txn
 /-!
 # C13 — a read-only table never modifies the bucket
 
@@ -37,5 +38,40 @@ theorem without_commit_guard_ro_writes :
     let s0 := run F0 (init [true]) [(0, .startCommit), (0, .step), (0, .step)]
     s0.trace.any (fun p => p.2.mutation) = true := by
   decide
+
+/-! ### the table side: a refused write leaves a read-only table as it was (F57)
+
+A write statement against a read-only table gets as far as xBegin (which takes the snapshot) and
+is refused in xUpdate; SQLite then ends the transaction through xSync/xCommit.  The rows never
+change, and the table must be ready for the next statement. -/
+
+open S3db.Txn in
+/-- after any number of refused write attempts a read-only table shows the rows it showed, and
+    has no transaction left open: every attempt is refused for being a write, none for a
+    "transaction already in progress" -/
+theorem ro_write_attempts_leave_table (K V : Type) (t : Tx K V) (hs : t.snapshot = none) (n : Nat) :
+    ∃ t', (Nat.repeat (fun (o : Option (Tx K V)) => o.bind fun t => (t.begin F).map (·.syncRO F)) n (some t)) = some t' ∧
+      t'.live = t.live ∧ t'.snapshot = none := by
+  have h1 : F.roSyncEndsTransaction = true := by decide
+  have h2 : F.beginClonesTree = true := by decide
+  have h3 : F.rollbackRestoresSnapshot = true := by decide
+  induction n with
+  | zero => exact ⟨t, rfl, rfl, hs⟩
+  | succ n ih =>
+    obtain ⟨t', ht', hl, hsn⟩ := ih
+    refine ⟨{ live := t'.live, snapshot := none }, ?_, hl, rfl⟩
+    simp only [Nat.repeat, ht', Option.bind_some]
+    simp [Tx.begin, Tx.syncRO, Tx.rollback, h1, h2, h3, hsn]
+
+open S3db.Txn in
+/-- the defect F57 on the model with the early return: the second write attempt is refused by
+    `Begin` itself ("transaction already in progress") -/
+theorem without_ro_sync_rollback_second_begin_fails :
+    let F0 : Facts := { F with roSyncEndsTransaction := false }
+    let t : Tx Nat Nat := { live := [] }
+    ((t.begin F0).map (·.syncRO F0)).bind (·.begin F0) = none := by
+  decide
+
+theorem ro_sync_facts : F.roSyncEndsTransaction = true ∧ F.syncSkipsRO = true := by decide
 
 end S3db.Props.C13
